@@ -1,3 +1,144 @@
 //! Solver harnesses mounted into rs-matter/src/transport.rs
-#![allow(unused_imports, dead_code)]
+//! (C10: the transport runner's sweep over dropped exchanges, on a real `Matter` object).
+#![allow(unused_imports, dead_code, static_mut_refs)]
 use super::*;
+use crate::dm::devices::test::{TEST_DEV_ATT, TEST_DEV_COMM};
+use crate::transport::exchange::InitiatorState;
+use crate::transport::mrp::{AckEntry, RetransEntry};
+use crate::transport::session::SessionMode;
+use crate::verif_support::vcrypto::VerifCrypto;
+use crate::verif_support::*;
+use crate::{vassert, vcover, vok};
+
+const DEV: BasicInfoConfig<'static> = BasicInfoConfig::new();
+
+/// `Matter::new` is a `const fn`: rustc evaluates the initialiser, CBMC receives a constant
+/// object (a stack `Matter::new` costs a minute of symbolic execution).
+struct SyncMatter(Matter<'static>);
+unsafe impl Sync for SyncMatter {}
+static MATTER: SyncMatter = SyncMatter(Matter::new(&DEV, TEST_DEV_COMM, &TEST_DEV_ATT, 5540));
+
+fn any_exch_role() -> Role {
+    let k = any_u8();
+    assume(k < 5);
+    match k {
+        0 => Role::Initiator(InitiatorState::Owned),
+        1 => Role::Initiator(InitiatorState::Dropped),
+        2 => Role::Responder(ResponderState::AcceptPending),
+        3 => Role::Responder(ResponderState::Owned),
+        _ => Role::Responder(ResponderState::Dropped),
+    }
+}
+
+/// One call of `TransportRunner::handle_dropped_exchange` on a session with two exchanges in
+/// every combination of role state x retransmission pending x acknowledgement pending:
+///  * a dropped exchange that still has a retransmission outstanding closes its session;
+///  * otherwise the first dropped exchange is closed (slot freed), after its pending
+///    acknowledgement - if any - has been written as a standalone ack;
+///  * an exchange that is not in the dropped state is never touched;
+///  * the runner is told to wait (`Ok(true)`) exactly when there was nothing to sweep, so a
+///    dropped exchange can never be left behind while the sweep sleeps.
+#[cfg_attr(kani, kani::proof)]
+#[cfg_attr(kani, kani::unwind(70))]
+#[cfg_attr(kani, kani::stub(embassy_time::Instant::now, crate::verif_support::stub_instant_now))]
+#[cfg_attr(not(kani), test)]
+fn c10_x_dropped_exchange_sweep() {
+    let matter: &'static Matter<'static> = &MATTER.0;
+    let roles = [any_exch_role(), any_exch_role()];
+    let retr = [any_bool(), any_bool()];
+    let ack = [any_bool(), any_bool()];
+    let acked = [any_bool(), any_bool()];
+    let ack_ctr = [any_u32(), any_u32()];
+
+    let sid = matter.with_state(|state| {
+        let s = vok!(
+            state.sessions.add(any_u32(), false, Address::new(), Some(77), &DEV),
+            "harness-setup-call-succeeds"
+        );
+        crate::transport::session::verif_kani_session::set_mode(
+            s,
+            SessionMode::Case {
+                fab_idx: NonZeroU8::new(1).unwrap(),
+                cat_ids: [0; 3],
+            },
+        );
+        let mut i = 0;
+        while i < 2 {
+            let idx = s.add_exch(100 + i as u16, roles[i]).unwrap();
+            let e = s.exchanges[idx].as_mut().unwrap();
+            if retr[i] {
+                e.mrp.retrans = Some(RetransEntry::new(None, any_u32()));
+            }
+            if ack[i] {
+                let mut a = vok!(AckEntry::new(ack_ctr[i]), "harness-setup-call-succeeds");
+                a.acknowledged = acked[i];
+                e.mrp.ack = Some(a);
+            }
+            i += 1;
+        }
+        s.id
+    });
+
+    let runner = TransportRunner::new(matter, VerifCrypto);
+    let mut packet = Packet::<64>::new();
+    let r = runner.handle_dropped_exchange(&mut packet);
+    vassert!(r.is_ok(), "ROLE:dropped-exchange-sweep-succeeds");
+    let wait = match r {
+        Ok(w) => w,
+        Err(_) => return,
+    };
+
+    let d = [roles[0].is_dropped_state(), roles[1].is_dropped_state()];
+    let stuck = (d[0] && retr[0]) || (d[1] && retr[1]);
+    let closable = if d[0] && !retr[0] {
+        Some(0usize)
+    } else if d[1] && !retr[1] {
+        Some(1usize)
+    } else {
+        None
+    };
+
+    matter.with_state(|state| {
+        let sess = state.sessions.get(sid);
+        if stuck {
+            vcover!(true);
+            vassert!(sess.is_none(), "ROLE:dropped-exchange-with-outstanding-retransmission-closes-its-session");
+            vassert!(!wait, "ROLE:sweep-does-not-sleep-after-work");
+        } else if let Some(c) = closable {
+            vcover!(true);
+            vassert!(sess.is_some(), "ROLE:session-survives-clean-close-of-a-dropped-exchange");
+            if let Some(s) = sess {
+                vassert!(s.exchanges[c].is_none(), "ROLE:dropped-exchange-with-nothing-outstanding-is-closed");
+                let o = 1 - c;
+                vassert!(s.exchanges[o].is_some(), "ROLE:sweep-closes-one-exchange-per-call-and-never-a-live-one");
+                let ack_pending = ack[c] && !acked[c];
+                vassert!(
+                    packet.buf.is_empty() == !ack_pending,
+                    "ROLE:pending-ack-of-a-dropped-exchange-is-sent-before-it-is-closed"
+                );
+                if ack_pending {
+                    vassert!(
+                        packet.header.proto.get_ack() == Some(ack_ctr[c]),
+                        "ROLE:pending-ack-of-a-dropped-exchange-is-sent-before-it-is-closed"
+                    );
+                    vassert!(
+                        packet.header.proto.exch_id == 100 + c as u16,
+                        "ROLE:standalone-ack-goes-out-on-the-dropped-exchange"
+                    );
+                }
+            }
+            vassert!(!wait, "ROLE:sweep-does-not-sleep-after-work");
+        } else {
+            vcover!(true);
+            vassert!(wait, "ROLE:sweep-sleeps-only-when-nothing-is-dropped");
+            vassert!(packet.buf.is_empty(), "ROLE:nothing-sent-when-nothing-is-dropped");
+            vassert!(sess.is_some(), "ROLE:live-session-untouched-by-sweep");
+            if let Some(s) = sess {
+                vassert!(
+                    s.exchanges[0].is_some() && s.exchanges[1].is_some(),
+                    "ROLE:sweep-closes-one-exchange-per-call-and-never-a-live-one"
+                );
+            }
+        }
+    });
+}
